@@ -150,6 +150,103 @@ def run(ctx):
                     ctx.fail('accel=%s/status0-not-converged' % name, 'info 0 but |r|/|b| = %.3g, |Mr|/|Mb| = %.3g (tol %g)'
                              % (r / np.linalg.norm(b), rM / np.linalg.norm(Mop @ b), tol), case)
     blackbox(ctx)
+    probes(ctx)
+
+
+def probes(ctx):
+    """directed probes: SciPy accelerators handed over as functions, right-hand sides in other units, and a problem
+    on which the recurrence estimate of the residual drifts away from the true residual"""
+    import pyamg
+    import scipy.sparse.linalg as sla
+    from pyamg.gallery import poisson
+    A = sp.csr_array(poisson((16, 16), format='csr'))
+    n = A.shape[0]
+    np.random.seed(ctx.seed)
+    ml = pyamg.smoothed_aggregation_solver(A, max_coarse=10)
+    Mop = ml.aspreconditioner()
+    rng = ctx.sub('probes')
+    b0 = np.array([rng.uniform(-1, 1) for _ in range(n)])
+    # 1. SciPy accelerators given as FUNCTIONS: the history is populated as for the named ones
+    for fn in (sla.gmres, sla.cg, sla.bicgstab, sla.cgs, sla.lgmres):
+        for tol in (1e-4, 1e-8):
+            res, ucb = [], []
+            case = dict(probe='scipy-function', accel=fn.__name__, tol=tol)
+            ctx.mark(case)
+            try:
+                with warnings.catch_warnings():
+                    warnings.simplefilter('ignore')
+                    x, info = ml.solve(b0, tol=tol, maxiter=40, accel=fn, residuals=res, return_info=True,
+                                       callback=lambda *a: ucb.append(1))
+            except Exception as e:   # noqa
+                ctx.fail('accel=scipy.%s/raises' % fn.__name__, repr(e), case)
+                continue
+            ctx.case(('scipy-function', fn.__name__, tol), True)
+            ctx.count('accel:scipy.' + fn.__name__)
+            moved = np.linalg.norm(x) > 0
+            if moved and len(res) < 2:
+                ctx.fail('accel=scipy.%s/history-not-populated' % fn.__name__, 'the accelerator iterated (x != x0) but len(residuals) = %d' % len(res), case)
+            if moved and len(ucb) == 0:
+                ctx.fail('accel=scipy.%s/user-callback-not-called' % fn.__name__, 'the accelerator iterated but the user callback was never called', case)
+            if info == 0 and np.linalg.norm(b0 - A @ x) > 1e-2 * np.linalg.norm(b0):
+                ctx.fail('accel=scipy.%s/status0-not-converged' % fn.__name__, 'info 0 but |r|/|b| = %.3g' % (np.linalg.norm(b0 - A @ x) / np.linalg.norm(b0)), case)
+    # 2. the same right-hand side in other units: status 0 still means converged (relative criterion for every b != 0)
+    for name in ('cg', 'cr', 'gmres', 'bicgstab', 'fgmres', 'cgnr', 'cgne', 'steepest_descent', 'minimal_residual'):
+        for ex in (-19, -10, 12):
+            b = b0 * 10.0 ** ex
+            for x0 in (None, 'random'):
+                case = dict(probe='rhs-units', accel=name, rhs_scale='1e%d' % ex, x0=x0, tol=1e-6)
+                ctx.mark(case)
+                xg = None if x0 is None else np.array([rng.uniform(-1, 1) for _ in range(n)]) * 10.0 ** ex
+                try:
+                    with warnings.catch_warnings():
+                        warnings.simplefilter('ignore')
+                        x, info = ml.solve(b, x0=xg, tol=1e-6, maxiter=80, accel=name, return_info=True)
+                except Exception as e:   # noqa
+                    ctx.fail('accel=%s/rhs-units/raises' % name, repr(e), case)
+                    continue
+                ctx.case(('rhs-units', name, ex, x0), True)
+                ctx.count('accel-units:' + name)
+                r = b - A @ x
+                rel, relM = np.linalg.norm(r) / np.linalg.norm(b), np.linalg.norm(Mop @ r) / np.linalg.norm(Mop @ b)
+                if info == 0 and not (rel <= 1e-6 * 1.001 or relM <= 1e-6 * 1.001):
+                    ctx.fail('accel=%s/rhs-units/status0-not-converged' % name, 'b of size 1e%d: info 0 but |r|/|b| = %.3g, |Mr|/|Mb| = %.3g (tol 1e-6)'
+                             % (ex, rel, relM), case)
+    for ex in (-19, -10, 12):
+        b = b0 * 10.0 ** ex
+        case = dict(probe='rhs-units', blackbox=True, rhs_scale='1e%d' % ex, tol=1e-8)
+        ctx.mark(case)
+        try:
+            import io
+            import contextlib
+            with warnings.catch_warnings(), contextlib.redirect_stdout(io.StringIO()):
+                warnings.simplefilter('ignore')
+                np.random.seed(ctx.seed + 5)
+                x = pyamg.solve(A, b, tol=1e-8, verb=False)
+        except Exception as e:   # noqa
+            ctx.fail('blackbox/rhs-units/raises', repr(e), case)
+            continue
+        ctx.case(('rhs-units', 'blackbox', ex), True)
+        rel = np.linalg.norm(b - A @ x) / np.linalg.norm(b)
+        if not rel <= 1e-8 * 1.01:
+            ctx.fail('blackbox/rhs-units/tolerance-not-met', 'b of size 1e%d: relative residual %.3g > 1e-8' % (ex, rel), case)
+    # 3. flexible GMRES (right preconditioning: its criterion is the TRUE residual): status 0 must survive recomputation on a
+    #    problem where the Givens estimate drifts below the true residual
+    for N in (3000, 5000):
+        Al = sp.csr_array(poisson((N,), format='csr'))
+        np.random.seed(ctx.seed)
+        mll = pyamg.smoothed_aggregation_solver(Al)
+        bl = np.random.default_rng(0).random(N)
+        for tol in (1e-10, 1e-11, 1e-12):
+            case = dict(probe='ill-conditioned', accel='fgmres', n=N, tol=tol)
+            ctx.mark(case)
+            with warnings.catch_warnings():
+                warnings.simplefilter('ignore')
+                x, info = mll.solve(bl, tol=tol, maxiter=60, accel='fgmres', return_info=True)
+            ctx.case(('ill-conditioned', 'fgmres', N, tol), True)
+            ctx.count('accel-illcond:fgmres')
+            rel = np.linalg.norm(bl - Al @ x) / np.linalg.norm(bl)
+            if info == 0 and not rel <= tol * 1.001:
+                ctx.fail('accel=fgmres/ill-conditioned/status0-not-converged', '1-D Poisson n=%d: info 0 but the true |r|/|b| = %.3g > tol %g' % (N, rel, tol), case)
 
 
 def blackbox(ctx):
